@@ -4,7 +4,7 @@
 # On success copies patch+demo to /verif/seeded/<name>/ (meta.json written by the caller).
 set -u
 ID=$1; NAME=${2:-$1}
-SRC=/tmp/seed/$ID
+SRC=${SEED_SRC:-/tmp/seed}/$ID
 W=/tmp/seedchk_$NAME
 rm -rf $W; git -C /repo worktree prune; git -C /repo worktree add -q --detach $W HEAD || exit 2
 cp $SRC/demo_$ID.py $W/ || exit 2
